@@ -94,6 +94,20 @@ def run(ctx):
     ctx.rule("C02.R5", "write_record: a field's default is substituted only when the key is absent from the datum", floor=1)
     record_defaults(ctx, a, W.funcs("record")[0], "C02.R5")
 
+    # ---- R6 the name a (name, value) hint is compared with ------------------------------------------------------
+    ctx.rule("C02.R6", "tuple notation: the hint is compared, by equality, with the branch's full name (named types) or its type name, nothing else", floor=1)
+    from .c09 import label_cases
+
+    wu6 = a.writers.funcs("union")[0]
+    lc = label_cases(wu6)
+    if lc is None or not lc["cases"]:
+        ctx.unrecognised("C02.R6", "write_union", wu6.where(), "tuple arm with a `hint == label` comparison not found")
+    else:
+        labels = {l for (_c, l) in lc["cases"]}
+        allowed = {"CAND['name']", "extract_record_type(CAND)", "CAND"}
+        extra = sorted(l for l in labels if l not in allowed and not l.endswith("['name']"))
+        ctx.check("C02.R6", "write_union: a hint selects a branch only by its full name / type name", not extra, wu6.where(), f"write_union: hint compared with {sorted(labels)}", "a hint is also matched against something that is not the branch's full name (a short or partial name can denote another branch): the index written is not the one the hint names")
+
 
 def fixed_gate(ctx, a, f, rule):
     cfg = cfg_of(f)
